@@ -273,6 +273,8 @@ def extra_checks(tier, seed):
         rng = random.Random('C05a-%d-%d' % (seed, i))
         c = c09.gen_queue(rng)
         c['acls'] = ['AsyncMachine', 'HierarchicalAsyncMachine', 'AsyncGraphMachine', 'HierarchicalAsyncGraphMachine'][i % 4]
+        if i % 2 == 0:
+            c['batch_removals'] = 1     # consecutive removals of one callback become one remove_model([...]) call
         cases.append(c)
     mo = F.run_model(1, [c09.enc_queue(c) + [True] for c in cases])
     io = F.run_impl('c05', 'impl_async_queue', cases)
